@@ -80,6 +80,20 @@ def gen(rng, n):
             nodes += scen.entry(td, name, '/home/u/' + name, None, pk, info_override=info,
                                 data=(rng.choice([None, 'no/such', '../gone', '/canary/dir']) if pk == 'l' else None))
             ents.append({'td': td, 'name': name, 'dates': dates})
+        if rng.random() < 0.3:
+            # entries whose .trashinfo cannot be read at all (not text, a directory, a link to nowhere): undated - kept when DAYS is
+            # given, purged like everything else when it is not
+            td, kind = rng.choice(dirs)
+            # (a .trashinfo that is a dangling symbolic link only without DAYS: with DAYS its payload counts as a payload lacking a
+            # .trashinfo - os.path.exists follows the link - and such payloads are purged whatever DAYS says; no trash implementation
+            # writes such a link and the property does not list it, so it is not held against the code)
+            uk = rng.choice(['nonutf8', 'dir_info', 'binary'] + (['dangling'] if days is None else []))
+            tag = 'u%d' % i
+            if uk == 'dangling':
+                nodes += [['l', td + '/info/mal%s.trashinfo' % tag, 'no/such/info'], ['f', td + '/files/mal%s' % tag, 'p']]
+            else:
+                nodes += scen.malformed(rng, td, uk, tag)
+            ents.append({'td': td, 'name': 'mal' + tag, 'dates': [], 'unreadable': uk})
         orphans = []
         if rng.random() < 0.4:
             td, kind = rng.choice(dirs)
